@@ -127,7 +127,7 @@ theorem retractLoop_spec (w : Nat) : ∀ (ids : List TaskId) (s s' : State) (acc
             (conv (s.setTask { task with state := .waiting 0 }) _ [] (by rw [List.append_nil]; exact h) rfl rfl (fun x e => by cases e) (fun t _ => rfl))
 
 /-- the items of `compute_items` for one task -/
-theorem computeItems_spec (s : State) (t : TaskId) : ∀ (l : List (Nat × TaskId × Nat))
+theorem computeItems_specSys (s : State) (t : TaskId) : ∀ (l : List (Nat × TaskId × Nat))
     (res : List (TaskId × Nat × Option Nat × List Nat)), computeItems s l = .ok res →
     (res.filter fun it => it.1 = t).map (·.2.2.1) = (itemsFor t l).map fun it => some it.2.2
   | [], res, h => by simp only [computeItems] at h; cases h; rfl
@@ -140,7 +140,7 @@ theorem computeItems_spec (s : State) (t : TaskId) : ∀ (l : List (Nat × TaskI
       · cases h
       · rename_i l' hl'
         cases h
-        have ih := computeItems_spec s t rest l' hl'
+        have ih := computeItems_specSys s t rest l' hl'
         have hid : task.id = it.2.1 := findTask_some_id (getTask_spec hg)
         simp only [itemsFor, List.filter_cons, computeOne, hid] at ih ⊢
         by_cases ht : it.2.1 = t
@@ -164,7 +164,7 @@ theorem groupComputeAux_cfor (s : State) (items : List (Nat × TaskId × Nat)) (
         rw [cfor_cons, groupComputeAux_cfor s items w' t rest ms hms, cfor_compute, List.flatMap_cons]
         congr 1
         split
-        · rw [computeItems_spec s t _ _ hl]
+        · rw [computeItems_specSys s t _ _ hl]
           simp only [itemsFor, List.filter_filter]
           congr 2
           funext x
